@@ -20,7 +20,7 @@ ANCHORS = ["decaylanguage.decay.decay:DecayChain.to_string", "decaylanguage.deca
            "decaylanguage.utils.utilities:DescriptorFormat.format_descriptor"]
 WORKERS = {"quick": 4, "thorough": 16}
 WTESTS = {"groups": ['to_string'], "tests": ['tests/decay', 'tests/utils']}
-REQUIRED = {"depth>=3": 50, "name-with-paren": 50, "name-with-quote-or-sign": 50, "repeated-subdecay": 50, "orders-compared": 500, "queried-before-to_string": 50, "rendered-before-inside-after-block": 50, "context-object-re-entered-inside-its-block": 20, "rejected-format-request-before-rendering": 20,
+REQUIRED = {"sub-decay-without-daughters": 10, "depth>=3": 50, "name-with-paren": 50, "name-with-quote-or-sign": 50, "repeated-subdecay": 50, "orders-compared": 500, "queried-before-to_string": 50, "rendered-before-inside-after-block": 50, "context-object-re-entered-inside-its-block": 20, "rejected-format-request-before-rendering": 20, "block-left-through-an-exception": 20,
             **{f"pattern-pair-{i}": 20 for i in range(8)}, "C13.to_string.reads_back": 500}
 EXHAUSTIVE_NOTE = "tree shapes <= 5 (quick) / 6 (thorough) decaying particles enumerated with multiplicities 1..2; all daughter orders for small chains"
 ASSUMPTIONS = ["names contain no blanks and have balanced parentheses (all real particle names do)", "brackets of the pattern family do not occur in names"]
@@ -127,6 +127,15 @@ def check_case(ctx, case, workload):
                         ctx.violate("descriptor:differs-after-nested-use-of-the-same-format", f"inside the nested block {nested!r}, after it {inside!r}", wit)
                 else:
                     inside = dc.to_string()
+            if first and rng.random() < 0.3:
+                # a second block, left through an exception that is caught outside: afterwards the default patterns are back all the same
+                ctx.hit("block-left-through-an-exception")
+                try:
+                    with DescriptorFormat(p1, p2):
+                        dc.to_string()
+                        raise KeyError("left the block early")
+                except KeyError:
+                    pass
             if first:
                 # the same object rendered again after the block: the default patterns are back at every level
                 after = dc.to_string()
@@ -187,7 +196,9 @@ def run(ctx):
     for i in range(ctx.pick(300, 3000)):
         n = rng.choice([1, 2, 3, 4, 5, 6, 8])
         names = rng.sample(pool + ["D*+", "K_S0", "pi0", "B0", "J/psi", "Lambda_b0", "N(1440)+", "h_b(2P)"], n)
-        ch = chains.random_chain(rng, n, max_mult=3, names=names)
+        ch = chains.random_chain(rng, n, max_mult=3, names=names, empty=0.12)
+        if any(not v[1] for v in ch["types"].values()):
+            ctx.hit("sub-decay-without-daughters")
         check_case(ctx, {"chain": ch, "pattern": i % len(PATTERNS), "norders": 6}, "gen")
     for name, k in contracts.COUNTS.items():
         if name.startswith("C13."):
